@@ -53,7 +53,7 @@ var targets = []string{
 	"bitstr.Len",
 	"bmtree.PathToIndex", "bmtree.PathToIndexLoose",
 	"bitmap.FromStr32", "bmtree.PathOf",
-	"bitmap.TailBitmap.Get", "bitmap.TailBitmap.Get1", "bitword.bitWord.Get",
+	"bitmap.TailBitmap.Get", "bitmap.TailBitmap.Get1", "bitword.bitWord.Get", "bitword.bitWord.FirstDiff",
 	"iohelper.NewSectionWriter", "iohelper.AtToWriter",
 	"iohelper.SectionWriter.Seek", "iohelper.SectionWriter.Size",
 	// loops: recursion on explicit fuel
@@ -442,6 +442,7 @@ type ftr struct {
 	cell    map[*ssa.Alloc]string // local cells -> the expression currently stored
 	fresh   map[ssa.Value]*freshRec // records allocated by this (single-block) function
 	owner   map[ssa.Value]ssa.Value // FieldAddr -> the fresh allocation it points into (absent: the receiver)
+	curp    *string                  // the name of the current state of the receiver record
 	header  map[*ssa.BasicBlock]bool // loop headers
 	fuel    bool                     // the function has a loop or calls a function that has one
 	rt      string                   // Coq type of the (option) result, for the loop fixpoints
@@ -455,6 +456,9 @@ type ftr struct {
 func (t *ftr) val(v ssa.Value) string {
 	if fr, ok := t.fresh[v]; ok {
 		return fr.cur
+	}
+	if t.rec != nil && v == t.recv && t.curp != nil {
+		return *t.curp // the receiver handed on to another method: its current state
 	}
 	if t.ignored[v] {
 		bail("the value %s (%s) is used in a way that is not translated", v.Name(), v)
@@ -524,6 +528,7 @@ type wrapper func(node) node
 
 // instr returns the wrapper for one non-terminator, non-phi instruction; cur is the name of the current state
 func (t *ftr) instr(in ssa.Instruction, cur *string) wrapper {
+	t.curp = cur
 	id := func(n node) node { return n }
 	let := func(v ssa.Value, expr string) wrapper {
 		t.name[v] = v.Name()
@@ -1064,7 +1069,7 @@ func (t *ftr) edge(b *ssa.BasicBlock, si int, cur string) node {
 				args = append(args, "fuel") // entry into the loop
 			}
 		}
-		if t.rec != nil {
+		if t.rec != nil && t.mutates {
 			args = append(args, cur)
 		}
 		for _, p := range phis(s) {
@@ -1124,7 +1129,7 @@ func (t *ftr) block(b *ssa.BasicBlock, cur string) node {
 	for _, j := range joins {
 		var params []string
 		jc := cur
-		if t.rec != nil {
+		if t.rec != nil && t.mutates { // a read-only receiver is never rebound: no need to thread it
 			t.nstate++
 			jc = fmt.Sprintf("%s_%d", t.name[t.recv], t.nstate)
 			params = append(params, fmt.Sprintf("(%s : %s)", jc, t.rec.coqType))
@@ -1135,9 +1140,6 @@ func (t *ftr) block(b *ssa.BasicBlock, cur string) node {
 		}
 		fix := ""
 		if t.header[j] {
-			if t.rec != nil {
-				bail("a loop in a method on a state record")
-			}
 			fix = fmt.Sprintf("fuel%d", j.Index)
 		}
 		kds = append(kds, kd{kname(j), params, t.block(j, jc), fix})
@@ -1333,7 +1335,24 @@ func translate(fn *ssa.Function, name string, done map[string]*result, byName ma
 		}
 		binders = append(binders, fmt.Sprintf("(%s : %s)", nm, coqType(p.Type())))
 	}
-	t.rt = "option " + paren(resultType(fn))
+	if t.rec != nil {
+		// does the method write a field of its receiver?  (known before the body is translated: the loop fixpoints
+		// need the result type)
+		for _, b := range fn.Blocks {
+			for _, in := range b.Instrs {
+				if st, ok := in.(*ssa.Store); ok {
+					if fa, ok := st.Addr.(*ssa.FieldAddr); ok && fa.X == t.recv {
+						t.mutates = true
+					}
+				}
+			}
+		}
+	}
+	t.rt = resultType(fn)
+	if t.mutates {
+		t.rt = "(" + t.rec.coqType + " * " + t.rt + ")"
+	}
+	t.rt = "option " + paren(t.rt)
 	body := t.block(fn.Blocks[0], cur)
 	fixRets(body, t.mutates)
 	partial := isPartial(body)
